@@ -24,7 +24,7 @@ REPO = os.environ.get('VERIF_REPO', '/repo')
 COQ = os.path.join(VERIF, 'coq')
 GEN = os.path.join(COQ, 'gen')
 CACHE = os.path.join(VERIF, '.cache')
-EVID = os.path.join(VERIF, 'evidence')
+EVID = os.environ.get('VERIF_EVIDENCE_DIR') or os.path.join(VERIF, 'evidence')
 REPLAY = os.path.join(EVID, 'replay')
 PY = '/venv/bin/python'
 def _jobs():
@@ -351,7 +351,10 @@ class Ctx:
         self._distinct = set()
         self._findings = load_findings()
         self._nreplay = 0
-        os.makedirs(GEN, exist_ok=True)
+        # generated Coq files of this run live in their own directory (concurrent runs of the
+        # same property must not overwrite each other's case files)
+        self.genrel = os.path.join('gen', 'r%d' % os.getpid())
+        os.makedirs(os.path.join(COQ, self.genrel), exist_ok=True)
         os.makedirs(REPLAY, exist_ok=True)
 
     # -- stage 1 ------------------------------------------------------------
@@ -441,11 +444,11 @@ class Ctx:
     def gen_obligation(self, name, vtext, timeout=900):
         """Compile a generated file (translator output + the obligations about
         it).  Returns (ok, output)."""
-        rel = os.path.join('gen', name + '.v')
+        rel = os.path.join(self.genrel, name + '.v')
         with open(os.path.join(COQ, rel), 'w') as f:
             f.write(vtext)
         ok, out = coqc_file(rel, timeout=timeout)
-        self.checker_cmds.append('cd coq && coqc -R . Verif %s' % rel)
+        self.checker_cmds.append('cd coq && coqc -R . Verif gen/<run>/%s.v' % name)
         self.obligations += 1
         if ok:
             self.discharged += 1
@@ -454,7 +457,7 @@ class Ctx:
     # -- stage 2 ------------------------------------------------------------
     def coq_eval(self, name, vtext, timeout=900):
         """Compile a generated case file; returns (ok, stdout)."""
-        rel = os.path.join('gen', name + '.v')
+        rel = os.path.join(self.genrel, name + '.v')
         with open(os.path.join(COQ, rel), 'w') as f:
             f.write(vtext)
         return coqc_file(rel, timeout=timeout)
@@ -522,6 +525,8 @@ class Ctx:
         with open(os.path.join(EVID, self.prop + '.json'), 'w') as f:
             json.dump(ev, f, indent=1, default=str)
         self.impl.cleanup()
+        if not self.violations and not self.broken and os.environ.get('VERIF_KEEP_GEN') != '1':
+            shutil.rmtree(os.path.join(COQ, self.genrel), ignore_errors=True)   # kept for inspection otherwise
         log('[%s] tier=%s obligations=%d discharged=%d evaluations=%d distinct=%d violations=%d wall=%.1fs' % (
             self.prop, self.tier, self.obligations, self.discharged, cov['evaluations'],
             cov['distinct_nontrivial'], len(self.violations), time.time() - self.t0))
